@@ -10,10 +10,12 @@ package base
 
 //@ specfunc bshape(b *BufferReadWriter) bool = b != nil && b.buf != nil && 0 <= b.offset && b.offset <= 1099511627776 && 0 <= len(b.buf.buf) && len(b.buf.buf) <= cap(b.buf.buf) && len(b.buf.buf) <= 1099511627776
 
-// A new buffer is an empty file with cursor 0.
+// A new buffer is an empty file with cursor 0, on storage of its own: it never shares bytes with a
+// buffer that existed before (readers handed out over an earlier buffer keep seeing their bytes - C01).
 //@ func NewBufferReadWriter
 //@   ensures result != nil && fresh(result) && result.buf != nil && result.offset == 0
 //@   ensures empty_file: len(result.buf.buf) == 0
+//@   ensures own_storage: cap(result.buf.buf) == 0 || fresh(result.buf.buf)
 
 // write(fd, p): bytes land at the cursor, the cursor advances by len(p), the size becomes
 // max(size, cursor+len(p)), a gap (cursor beyond the end) reads as zeros.
